@@ -147,6 +147,22 @@ fn rv_sets(tier: &str) -> Vec<(String, RealVectorStateSpace, Vec<Scn<RealVectorS
         feas: 1,
     });
     out.push(("rv2".to_string(), sp, scs));
+    // fine resolution (lvs = 0.0707): motions of many hundred interpolation steps, PRM radius and
+    // RRT step far above 32 resolution lengths, a thin full-height wall (0.12 > lvs)
+    let mut fine = RealVectorStateSpace::new(2, Some(vec![(0.0, 10.0), (0.0, 10.0)])).unwrap();
+    fine.set_longest_valid_segment_fraction(0.005);
+    out.push((
+        "rv2-fine".to_string(),
+        fine,
+        vec![Scn {
+            name: "thin-wall".into(),
+            clearance: Rc::new(|s: &RealVectorState| sdf_box(&s.values, &[4.94, -1.0], &[5.06, 11.0])),
+            start: rv(&[1.0, 5.0]),
+            goal: rv(&[9.0, 5.0]),
+            goal_r: 0.5,
+            feas: 0,
+        }],
+    ));
     if tier == "thorough" {
         let mut sp3 = RealVectorStateSpace::new(3, Some(vec![(-1.0, 1.0), (-2.0, 2.0), (0.0, 1.0)])).unwrap();
         sp3.set_longest_valid_segment_fraction(0.02);
@@ -240,6 +256,15 @@ fn so3_sets(tier: &str) -> Vec<(String, SO3StateSpace, Vec<Scn<SO3State>>)> {
         "so3-cone1.0".to_string(),
         cone,
         vec![Scn { name: "free".into(), clearance: Rc::new(|_s: &SO3State| 1.0), start: q_axis(0, -0.8), goal: q_axis(1, 0.8), goal_r: 0.1, feas: 1 }],
+    ));
+    // narrow cone, start and goal near the rim, the goal given with the opposite quaternion sign (the
+    // same rotation): steering between nearly identical rotations of opposite sign must stay inside
+    let neg = |q: SO3State| SO3State::new(-q.x, -q.y, -q.z, -q.w);
+    let narrow = SO3StateSpace::new(Some((SO3State::identity(), 0.3))).unwrap();
+    out.push((
+        "so3-cone0.3".to_string(),
+        narrow,
+        vec![Scn { name: "neg-goal".into(), clearance: Rc::new(|_s: &SO3State| 1.0), start: q_axis(0, 0.25), goal: neg(q_axis(0, 0.29)), goal_r: 0.005, feas: 1 }],
     ));
     if tier == "thorough" {
         let wide = SO3StateSpace::new(Some((SO3State::identity(), 2.6))).unwrap();
@@ -395,9 +420,12 @@ where
                 for si in 0..nseeds {
                     // parameter rotation driven by the seed and the run number
                     let rot = (ctx.seed as usize + ctx.run + si as usize) % 6;
-                    let maxd = [5.0, 5.0, 3.0, 0.6, 40.0, 8.0][rot] * lvs;
+                    let longs = label.ends_with("-fine");
+                    let maxd = if longs { [60.0, 45.0, 80.0, 50.0, 70.0, 40.0][rot] * lvs } else { [5.0, 5.0, 3.0, 0.6, 40.0, 8.0][rot] * lvs };
                     let radius = [1.5, 0.7, 2.0, 3.0, 0.2, 1.0][rot] * maxd;
                     let bias = [0.05, 0.5, 0.0, 1.0, 0.2, 0.05][rot];
+                    // the narrow-cone scenario: steps shorter than the start-goal gap, always toward the goal
+                    let (maxd, bias) = if label == "so3-cone0.3" { (0.38 * lvs, 1.0) } else { (maxd, bias) };
                     let pseed = ctx.seed.wrapping_mul(7919).wrapping_add(ctx.run as u64 * 31 + si);
                     ctx.run += 1;
                     let run = ctx.run;
@@ -419,7 +447,8 @@ where
                     if let Some(pf) = &ctx.progress {
                         std::fs::write(pf, format!("{}", run)).ok();
                     }
-                    let params = Params { maxd, bias, radius: if kind == Kind::Prm { [6.0, 3.0, 9.0][rot % 3] * lvs } else { radius }, build_ticks: iters.min(30), seed: Some(pseed) };
+                    let params = Params { maxd, bias, radius: if kind == Kind::Prm { (if longs { [50.0, 60.0, 45.0][rot % 3] } else { [6.0, 3.0, 9.0][rot % 3] }) * lvs } else if longs { 1.2 * maxd } else { radius },
+                                          build_ticks: if longs { 12 } else { iters.min(30) }, seed: Some(pseed) };
                     let cl = sc.clearance.clone();
                     let mk_problem = || Problem {
                         starts: vec![sc.start.clone()],
